@@ -448,6 +448,10 @@ def centrifugate_hints(
             hints.update((m[1] or "").split())
         else:
             lines.append(line)
+    while lines and not lines[0].strip():  # blank lines left at the ends once the isolated hints are gone
+        del lines[0]
+    while lines and not lines[-1].strip():
+        del lines[-1]
     if not hints:
         return Source("\n".join(lines))
     for i in (0, -1):
